@@ -44,6 +44,25 @@ func main() {
 				os.Exit(2)
 			}
 		}
+	case "conc":
+		for i := 0; i < *n; i++ {
+			s := *seed*1000003 + int64(i)
+			if *one == 0 && i%*shards != *shard {
+				continue
+			}
+			if *one != 0 {
+				s = *one
+				*n = 1
+			}
+			p := h.ConcProfileFor(*profile, s)
+			for k, evs := range h.RunConc(s, p) {
+				name := fmt.Sprintf("%s-%s-%d-%d.ndjson", *family, p.Name, s, k)
+				if err := h.WriteTrace(filepath.Join(*out, name), evs); err != nil {
+					fmt.Fprintln(os.Stderr, "vh:", err)
+					os.Exit(2)
+				}
+			}
+		}
 	default:
 		fmt.Fprintln(os.Stderr, "vh: unknown family", *family)
 		os.Exit(2)
